@@ -125,10 +125,8 @@ def parseUintAux : Nat → Nat → Bytes → Except UintErr (Nat × Nat)
     let k := c - 48
     if k > 9 then (if i = 0 then .error .firstChar else .ok (v, i))
     else
-      -- vNew := 10*v + k in int64; "vNew < v" detects wrap-around
-      let raw := 10 * v + k.toNat
-      let wrapped : Int := (Int.ofNat raw + 2^63) % 2^64 - 2^63
-      if wrapped < (v : Int) then .error .tooLong else parseUintAux wrapped.toNat (i + 1) t
+      -- overflow test of the fixed code: `v > (maxInt - k) / 10`
+      if v > (2^63 - 1 - k.toNat) / 10 then .error .tooLong else parseUintAux (10 * v + k.toNat) (i + 1) t
 
 def parseUintBuf (b : Bytes) : Except UintErr (Nat × Nat) :=
   if b.isEmpty then .error .empty else parseUintAux 0 0 b
